@@ -149,9 +149,14 @@ def _collect_given(clause: Clause, seed: int, n: int, res: TaskResult):
 
 
 def _shrink_given(clause: Clause, seed: int, n: int, sub: str, cap: int):
-    best = {"case": None, "detail": "", "size": None, "last": None, "evals": 0}
+    best = {"case": None, "detail": "", "size": None, "last": None, "evals": 0, "all": 0}
 
     def body(case):
+        # the shrinker's own limit is five minutes per bucket; a library changed in many places has dozens of buckets, so the number of
+        # evaluations (hits or not) is bounded as well - an unfinished shrink only means a larger replay case
+        best["all"] += 1
+        if best["all"] > 30 * cap and best["case"] is not None:
+            raise _StopShrink()
         devs = clause.run_check(case)
         hit = [d for d in devs if d.sub == sub]
         if hit:
